@@ -197,8 +197,8 @@ def render(skeleton, insertions):
 # skeleton families
 # --------------------------------------------------------------------------------------------------
 # atom spellings: bare one-letter, bare two-letter, aromatic, bracket, bracket + annotations
-ATOMS_ATOMISTIC = ['a:C', 'a:Cl', 'a:c', 'A:NH3+', 'A:C:0.5', 'A:O:q=4:p=s', 'A:C:x=R',
-                   'a:Br', 'a:N', 'A:O-', 'A:13CH3', 'A:C:1:S', 'A:C:w=0.25:x=S', 'A:H:0.1', 'A:Si', 'a:*', 'a:o',
+ATOMS_ATOMISTIC = ['a:C', 'a:Cl', 'a:c', 'A:NH3+', 'A:C:0.5', 'A:O:q=4:p=s', 'A:C:x=R', 'a:Br',
+                   'a:N', 'A:O-', 'A:13CH3', 'A:C:1:S', 'A:C:w=0.25:x=S', 'A:H:0.1', 'A:Si', 'a:*', 'a:o',
                    'A:C@H', 'A:C:r=abc']
 ATOMS_COARSE = ['A:#A', 'A:#TC4', 'A:#OT1:w=0.5', 'A:#CD1:r=abc', 'A:#OT1:0.5', 'A:#B2:x=S:w=2']
 
@@ -242,9 +242,9 @@ def skeletons(tier):
     """The enumerated skeleton set of a tier: list of (skeleton string, family)."""
     out = []
     if tier == 'quick':
-        at, co = ATOMS_ATOMISTIC[:7], ATOMS_COARSE[:4]
+        at, co = ATOMS_ATOMISTIC[:8], ATOMS_COARSE[:4]
         for sh in SHAPES_ATOMISTIC:
-            for s in shifted_fillings(sh, at, 7 if n_placeholders(sh) <= 2 else 4):
+            for s in shifted_fillings(sh, at, 8 if n_placeholders(sh) <= 2 else 4):
                 out.append((s, 'atomistic'))
         for sh in SHAPES_EZ:
             for s in shifted_fillings(sh, ['a:C', 'a:F', 'a:Cl', 'A:C:x=R', 'a:N'], 2, step=1):
